@@ -334,7 +334,39 @@ func (g *gen) scenario() []M {
 		"body": M{"k": "burn", "ver": 0, "tok": tok, "rcpt": pad(g.pick(accts)), "amt": 1 + g.r.Intn(3), "sender": pad("x2")}}
 	recv := func() M { return M{"type": "ReceiveMessage", "from": user, "wire": wire, "att": g.honestAtt()} }
 	flag := g.pick([]string{"BurningAndMinting", "SendingAndReceivingMessages"})
-	return []M{{"type": "Pause" + flag, "from": pauser}, recv(), {"type": "Unpause" + flag, "from": pauser}, recv(), recv()}
+	failing := M{"type": "AcceptOwner", "from": "x1"}
+	switch g.r.Intn(3) {
+	case 0: // blocked by a pause, submitted again unchanged after the unpause
+		return []M{{"type": "Pause" + flag, "from": pauser}, recv(), {"type": "Unpause" + flag, "from": pauser}, recv(), recv()}
+	case 1: // an unpause that is only simulated, or sits in a transaction that fails, must not lift the pause
+		return []M{{"type": "Pause" + flag, "from": pauser}, {"type": "Simulate", "tx": M{"type": "Unpause" + flag, "from": pauser}}, recv(),
+			{"type": "Batch", "msgs": []any{M{"type": "Unpause" + flag, "from": pauser}, failing}}, recv(),
+			{"type": "Unpause" + flag, "from": pauser}, recv()}
+	default: // a pause that is only simulated, or sits in a transaction that fails, must not block anything
+		return []M{{"type": "Unpause" + flag, "from": pauser}, {"type": "Simulate", "tx": M{"type": "Pause" + flag, "from": pauser}}, recv(),
+			{"type": "Batch", "msgs": []any{M{"type": "Pause" + flag, "from": pauser}, failing}}}
+	}
+}
+
+// roleScenario: a role change that is only simulated, or sits in a transaction that fails, appoints nobody
+func (g *gen) roleScenario() []M {
+	owner, _ := g.st["owner"].(string)
+	if len(owner) != 2 {
+		return nil
+	}
+	x := g.pick(accts)
+	failing := M{"type": "AcceptOwner", "from": "x1"}
+	acts := [][2]M{
+		{{"type": "UpdatePauser", "from": owner, "new": x}, {"type": "PauseBurningAndMinting", "from": x}},
+		{{"type": "UpdateAttesterManager", "from": owner, "new": x}, {"type": "UpdateSignatureThreshold", "from": x, "amt": 1 + g.r.Intn(3)}},
+		{{"type": "UpdateTokenController", "from": owner, "new": x}, {"type": "SetMaxBurnAmountPerMessage", "from": x, "denom": "MINT", "amt": 1 + g.r.Intn(4)}},
+		{{"type": "UpdateOwner", "from": owner, "new": x}, {"type": "AcceptOwner", "from": x}},
+	}
+	a := acts[g.r.Intn(len(acts))]
+	if g.p(0.5) {
+		return []M{{"type": "Simulate", "tx": a[0]}, a[1], {"type": "UpdateMaxMessageBodySize", "from": owner, "size": 200}}
+	}
+	return []M{{"type": "Batch", "msgs": []any{a[0], failing}}, a[1], {"type": "UpdateMaxMessageBodySize", "from": owner, "size": 200}}
 }
 
 func (g *gen) next() (M, []bool) {
@@ -344,10 +376,14 @@ func (g *gen) next() (M, []bool) {
 		if gets(m, "type") == "ReceiveMessage" {
 			m["att"] = g.honestAtt()
 		}
-		return m, []bool{true, true, true}
+		return jsonRoundTrip(m), []bool{true, true, true}
 	}
-	if g.p(0.02) {
-		if sc := g.scenario(); sc != nil {
+	if g.p(0.03) {
+		sc := g.scenario()
+		if g.p(0.4) {
+			sc = g.roleScenario()
+		}
+		if sc != nil {
 			g.queue = sc[1:]
 			return sc[0], []bool{true, true, true}
 		}
